@@ -86,12 +86,15 @@ Inductive check :=
 | Check (a : string) (p : pattern) (bd : option string)           (* vg.shape.check / check_value *)
 | CheckAny (a : string) (ps : list pattern) (bd : option string)   (* polliwog check_shape_any *)
 | Columnize (a : string) (p : pattern)                             (* polliwog columnize *)
+| CheckFlat (a : string) (p : pattern)                             (* a = a.flatten(); vg.shape.check_value(a, p) *)
 | CheckSame (a other : string)                                     (* vg.shape.check(locals(), a, other.shape) *)
 | CheckEach (a : string) (p : pattern)                             (* for x in a: vg.shape.check(locals(), "x", p) *)
 | NeedsShape (a : string)                                          (* evaluation of `a.shape` outside a check *)
 | IfPresent (a : string) (c : check).                              (* if a is not None: c *)
 
 Definition vraise : result benv := Raise ValueError.
+
+Definition size_of (s : shape) : nat := fold_right Nat.mul 1%nat s.
 
 Definition columnize_pattern (p : pattern) (s : shape) : pattern :=
   if Nat.eqb (List.length s) (List.length p) then p else tl p.
@@ -129,6 +132,12 @@ Fixpoint run_check (c : check) (args : aenv) (b : benv) : result benv :=
           | AArr s => if match_pattern b (columnize_pattern p s) s then Ok b else vraise
           | _ => Raise AttributeError     (* arr.ndim *)
           end
+      end
+  | CheckFlat a p =>
+      match args a with
+      | AArr s => if match_pattern b p [size_of s] then Ok b else vraise
+      | ANumber => if match_pattern b p [1%nat] then Ok b else vraise   (* np.array(5.0).flatten() has shape (1,) *)
+      | _ => vraise                       (* np.array(None).flatten() is an object array of shape (1,): modelled as rejected *)
       end
   | CheckSame a other =>
       match args other with
@@ -176,7 +185,7 @@ Definition patterns_of (c : check) (args : aenv) : option (string * list pattern
 (* argument names a check inspects *)
 Fixpoint check_arg (c : check) : string :=
   match c with
-  | Check a _ _ | CheckAny a _ _ | Columnize a _ | CheckSame a _ | CheckEach a _ | NeedsShape a => a
+  | Check a _ _ | CheckAny a _ _ | Columnize a _ | CheckFlat a _ | CheckSame a _ | CheckEach a _ | NeedsShape a => a
   | IfPresent _ c' => check_arg c'
   end.
 
@@ -190,6 +199,38 @@ Fixpoint constrains (c : check) : bool :=
 
 Definition checked_args (cs : list check) : list string :=
   map check_arg (filter constrains cs).
+
+(* ---- boolean equality of contracts (diagnostics for the golden-contract tie) --------------------------- *)
+Definition dim_eqb (x y : dim) : bool :=
+  match x, y with
+  | DInt n, DInt m => Nat.eqb n m
+  | DAny, DAny => true
+  | DVar a, DVar b => String.eqb a b
+  | DVarOrAny a, DVarOrAny b => String.eqb a b
+  | _, _ => false
+  end.
+Fixpoint list_eqb {A} (f : A -> A -> bool) (l m : list A) : bool :=
+  match l, m with
+  | [], [] => true
+  | x :: l', y :: m' => f x y && list_eqb f l' m'
+  | _, _ => false
+  end.
+Definition pattern_eqb := list_eqb dim_eqb.
+Definition ostring_eqb (x y : option string) : bool :=
+  match x, y with Some a, Some b => String.eqb a b | None, None => true | _, _ => false end.
+Fixpoint check_eqb (x y : check) : bool :=
+  match x, y with
+  | Check a p bd, Check a' p' bd' => String.eqb a a' && pattern_eqb p p' && ostring_eqb bd bd'
+  | CheckAny a ps bd, CheckAny a' ps' bd' => String.eqb a a' && list_eqb pattern_eqb ps ps' && ostring_eqb bd bd'
+  | Columnize a p, Columnize a' p' => String.eqb a a' && pattern_eqb p p'
+  | CheckFlat a p, CheckFlat a' p' => String.eqb a a' && pattern_eqb p p'
+  | CheckSame a o, CheckSame a' o' => String.eqb a a' && String.eqb o o'
+  | CheckEach a p, CheckEach a' p' => String.eqb a a' && pattern_eqb p p'
+  | NeedsShape a, NeedsShape a' => String.eqb a a'
+  | IfPresent a c, IfPresent a' c' => String.eqb a a' && check_eqb c c'
+  | _, _ => false
+  end.
+Definition contract_eqb := list_eqb check_eqb.
 
 (* ---- named contracts, argument environments from association lists, delegation ---------------------- *)
 Definition contracts := list (string * list check).
